@@ -32,6 +32,11 @@ Section Mon.
      forallb (fun e => (k_ns (ev_key e) =? oi_ns (ow_id ow)) &&
                        match gk_scope (k_gk (ev_key e)) with Some true => true | _ => false end) (pc_events c)).
 
+  (** C11 under API faults: a rollout pass in which the dry run of some object was not accepted (the harness
+      marks the object whose dry-run request failed as [po_dryreject]) sends no write at all. *)
+  Definition m11f : bool :=
+    pc_teardown c || negb (existsb violates (pc_objects c)) || is_nil (pc_events c).
+
   (** C04 at the phase level: TeardownPhase reports a phase as cleaned up only if, in the store after the
       call, every listed object is absent or no longer controlled by the owner (or excluded by the teardown
       preflight) - whatever third parties did between the read and the delete. *)
@@ -51,4 +56,5 @@ End Mon.
 
 Definition judge09p (c : pcase) : bool * bool := (agree c, m09p c).
 Definition judge11p (c : pcase) : bool * bool := (agree c, m11p c).
+Definition judge11f (c : pcase) : bool * bool := (agree c, m11f c).
 Definition judge04p (c : pcase) : bool * bool := (agree c, m04p c).
